@@ -85,10 +85,10 @@ package spiffe
 //@   ensures [C19.ready.nil] result == nil ==> chdone[s.readyCh]
 //@   ensures [C19.ready.ctx] sel == 0 ==> result != nil
 //@   at select#0 assert [C19.ready.nolock] chdone[s.readyCh] || !held(s.lock)
-//@   at select#0 assert [C19.ready.waits] arg0 == ctx.donech && arg1 == s.readyCh
+//@   at select#0 assert [C19.ready.waits] selcases == 2 && selhas(ctx.donech) && selhas(s.readyCh)
 //@   at select#0 ghost sel = res0
-//@   at select#0 ghost chdone = res0 == 1 ? update(chdone, s.readyCh, true) : chdone
-//@   at select#0 ghost ctx.ctxdone = (res0 == 0) || ctx.ctxdone
+//@   at select#0 ghost chdone = (res0 >= 0 && selchan == s.readyCh) ? update(chdone, s.readyCh, true) : chdone
+//@   at select#0 ghost ctx.ctxdone = (res0 >= 0 && selchan == ctx.donech) || ctx.ctxdone
 
 // fetchIdentityCertificate: the key is generated in this activation and is the one the CSR is signed with, the one
 // that is PEM-encoded and the one in the returned SVID; when a dir is configured, every successful fetch has handed
@@ -227,8 +227,8 @@ package spiffe
 //@   at before call After#0 assert [C19.rotate.wait] (-9223372036854775808 <= unixNano(renewTime) - gnow && unixNano(renewTime) - gnow <= 9223372036854775807) ==> arg1 == min(60000000000, unixNano(renewTime) - gnow)
 //@   at before call After#0 assert [C19.rotate.wait.bound] arg1 <= 60000000000 && (-9223372036854775808 <= unixNano(renewTime) - gnow ==> arg1 <= unixNano(renewTime) - gnow)
 //@   at before call After#0 assert [C19.rotate.retry.nowait] (retry && gnow >= gdue) ==> arg1 <= 0
-//@   at select#0 assert [C19.rotate.waits] arg0 == call_After_0_result && arg1 == ctx.donech && !held(s.lock)
-//@   at select#0 ghost cd = res0 == 1
+//@   at select#0 assert [C19.rotate.waits] selcases == 2 && selhas(call_After_0_result) && selhas(ctx.donech) && !held(s.lock)
+//@   at select#0 ghost cd = (res0 >= 0 && selchan == ctx.donech)
 //@   at call Before#0 ghost due = !res0
 //@   at call Before#0 assert [C19.rotate.due] due <==> unixNano(arg0) >= unixNano(renewTime)
 //@   at call Before#0 assert [C19.rotate.retry.fetch] (retry && unixNano(arg0) >= gdue) ==> due
@@ -240,8 +240,8 @@ package spiffe
 //@   at call fetchIdentityCertificate#0 ghost unpub = res1 == nil
 //@   at before call After#1 assert [C19.rotate.retry] owed && arg1 == 10000000000
 //@   at call After#1 ghost owed = false
-//@   at select#1 assert [C19.rotate.retry.waits] arg0 == call_After_1_result && arg1 == ctx.donech && !held(s.lock)
-//@   at select#1 ghost cd = res0 == 1
+//@   at select#1 assert [C19.rotate.retry.waits] selcases == 2 && selhas(call_After_1_result) && selhas(ctx.donech) && !held(s.lock)
+//@   at select#1 ghost cd = (res0 >= 0 && selchan == ctx.donech)
 //@   at before call Lock#0 assert [C19.rotate.publish.ok] !owed && call_fetchIdentityCertificate_0_result1 == nil
 //@   at store currentSVID#0 assert [C19.rotate.publish] heldw(s.lock) && !owed && unpub && arg0 == call_fetchIdentityCertificate_0_result && arg0 != nil
 //@   at store currentSVID#0 ghost unpub = false
